@@ -70,6 +70,17 @@ def prt1(ctx: Ctx):
             if e.attr == "_netloc" and any(t == p for t in walk(e.value)) and e.value[0] == "fstr":
                 ok = all(valid_port_facts(f, p) for f in alternatives(e.state.facts, p))
                 seen.setdefault((id(e.node), "fstr"), [e, []])[1].append(ok)
+        # ... and validation dominates every normal return, not only the re-assembly: an early `return self` must not
+        # accept a value the checks would have rejected (True == 1, 8080.0 == 8080)
+        rets = {}
+        for s, v, node in r.returns:
+            ok = all(valid_port_facts(f, p) for f in alternatives(s.facts, p))
+            rets.setdefault(id(node), [node, v, []])[2].append(ok)
+        for node, v, oks in rets.values():
+            ctx.instance(rule)
+            ctx.ob(rule, fi.qual, f"return {show(v)[:50]}", all(oks),
+                   "a result is returned on a path where the `port` argument was not validated (None, or int and not bool and "
+                   "0..65535): an invalid port is silently accepted", where(fi, node), sample="port validated before every return")
         for (_n, what), (e, oks) in seen.items():
             ctx.instance(rule)
             ctx.ob(rule, fi.qual, f"port -> {what if what != 'fstr' else 'formatted authority'}", all(oks),
